@@ -25,6 +25,15 @@ CHECKS = {
  "C15": dict(engine="frontmon", category="exploration", technique="runtime monitor: reference model R-inttype compared with Model::to_rust() and with the generated accessor text, exhaustive over the boundary set",
    text="All ordered bound pairs over B = {0, +-1, +-2^k, +-2^k+-1 (k <= 63)} u [-20,20], each bound also MIN/MAX, plain and extensible (163k constraints thorough; a strided 57k quick), as tuple type and as SEQUENCE field, fed to the real to_rust(); the chosen RustType must hold [lo,hi], have the right signedness, be the narrowest, be 64 bit for MIN/MAX/extensible; the generated *_min()/*_max() accessors are parsed from RustCodeGenerator output and compared with the declared bounds (open ends must not be cut off).",
    design_ref="5 (C15)", note="trusted: R-inttype as stated in DESIGN.md; 22 recorded signatures for the (MIN..ub)/unconstrained mapping (known findings)"),
+ "C08": dict(engine="frontmon", category="exploration", technique="runtime monitor: generator -> attribute parser round trip on every definition of generated modules and of the repository's inline test modules, PartialEq on the Rust model with a construct-level diff signature; macro expansion executed under the panic journal",
+   text="For every definition of 1000 (quick) / 10000 (thorough) generated modules plus the repo's own inline test modules, the text RustCodeGenerator emits is split into attribute and item, parsed by the real proc_macro::parse_asn_definition, converted with to_rust() and compared (PartialEq) with the definition it was generated from, modulo the sanctioned derived tag of an untagged CHOICE; expand() must not panic and must emit constraint impls. Differences are signed by the Rust-model constructors around the first differing word.",
+   design_ref="5 (C08)", note="text level; the comparison of compiled descriptor constants with the source schema is done by the zoo monitors (Extractor shape events) and reported under the zoo checks"),
+ "C12": dict(engine="frontmon", category="exploration", technique="runtime monitor: differential resolution (referencing variant vs literal variant through the real MultiModuleResolver) over generated reference placements, import forms, decoy modules and all load orders; negative variants must yield the documented resolve errors",
+   text="A random subset of range bounds, SIZE bounds and DEFAULT literals of a generated module is replaced by fresh value references placed before/after use or in a sibling module imported by name, name+matching OID, name+differing OID or name+OID while the sibling has none; up to two decoy modules (unrelated OID, none, OID extending or prefixing the imported one) define the same names with other values; every load order (<= 24) is resolved with try_resolve_all and the definitions must equal those of the literal variant. Dropped definitions/imports, an unloaded sibling and a bound pointing at a BOOLEAN/string value must give FailedToResolveReference/Type resp. FailedToParseLiteral.",
+   design_ref="5 (C12)", note="module matching by name or OID as the property states; the literal variant goes through the same parser so recorded C07 deviations cancel out"),
+ "C16": dict(engine="frontmon", category="exploration", technique="runtime monitor: R-tags reference (X.680 8.6 order, tag assignment) compared with the field order and TAG constants read from the real macro expansion, all permutations of <= 5 components over four tag patterns",
+   text="SET and SEQUENCE definitions over builtin types with distinct universal tags, references to tagged types, to SEQUENCE/SET types and to untagged (extensible) CHOICEs, under the patterns automatic / all-context / mixed classes / partly tagged, with the extension marker at random positions, in all n! textual orders (n <= 4 quick, 5 thorough): the order in which the expanded read_seq/write_seq visit the fields must be the canonical root order followed by the additions, SEQUENCE must keep textual order, and every field's expanded TAG constant must equal the R-tags assignment.",
+   design_ref="5 (C16)", note="text level (macro expansion); order among extension additions is judged by C02; the compiled-level check with values (bits vs R-PER, Debug by field name) is part of the zoo"),
 }
 
 NOT_YET = {}
